@@ -215,14 +215,19 @@ CHECKS = {
         pkg="client",
         race=True,
         level="exploration",
-        groups=[G("^TestC05_Mux$", 300, 2000), G("^TestC05_Alloc$", 600, 800), G("^TestC05_Wrap$", 1, 3, shrinktime="1s", timeout="30m")],
+        groups=[G("^TestC05_Mux$", 300, 2000), G("^TestC05_Alloc$", 600, 800), G("^TestC05_Wrap$", 1, 3, shrinktime="1s", timeout="30m"),
+                G("^TestC05_Depleted$", 1, 3, shrinktime="1s", timeout="30m"), G("^TestC05_SlowReply$", 12, 60, shrinktime="5s")],
         rule="real CSession against a scripted raw server that holds every request and answers in a generated order: steps call (any of the 11 Session methods, unique marker in the fid), "
              "reply (a held request chosen by index, correct reply carrying the marker or an Rerror), cancel (the caller abandons a pending call; its request stays unanswered or is answered late); "
              "a third of the steps are issued without waiting (concurrent callers, pipelined replies); buffered and rendezvous connections. The server checks on arrival that the tag is not NOTAG and not "
              "the tag of any received-and-unanswered request (abandoned ones included); the caller checks it got the result carrying its own marker. Plus: tag-wrap histories of 65.6k-67k calls with 1..6 early "
-             "requests left unanswered for ever, and allocateTag as a pure function (verif hook) over arbitrary in-use sets incl. nearly full and full. Built with -race. "
+             "requests left unanswered for ever, and allocateTag as a pure function (verif hook) over arbitrary in-use sets incl. nearly full and full. One call in 7 of the Mux histories cannot be sent "
+             "(its context is already cancelled, or it is a Twalk larger than msize) while others are pending: it must fail promptly and leave the pending ones alone. TestC05_Depleted: all 65535 tags "
+             "awaiting replies (0..3 live calls, the rest abandoned), then 1..3 calls too many: they fail, nothing is sent with a tag in use, the live calls still get their replies. TestC05_SlowReply "
+             "(buffered connection that honours read and write deadlines): the reply to a pending call arrives in two pieces, the second 20..60 ms after the deadline (120..200 ms) of another, unanswered call. "
+             "Built with -race. "
              "Non-trivial = at least 2 requests outstanding and replies not in request order (Mux), a non-empty in-use set (Alloc), every wrap history.",
-        require_classes=dict(quick=["out_of_order_replies", "abandoned_answered_late", "abandoned_never_answered", "tag_wrap", "pool_depleted", "nearly_full", "rendezvous", "buffered"], thorough=[]),
+        require_classes=dict(quick=["out_of_order_replies", "abandoned_answered_late", "abandoned_never_answered", "tag_wrap", "pool_depleted", "nearly_full", "rendezvous", "buffered", "local_failure_among_pending", "pool_exhausted_live", "reply_in_pieces_across_deadline"], thorough=[]),
         assumptions=["the scripted server always keeps reading (it never back-pressures the client)",
                      "allocateTag's documented precondition: the in-use map never contains NOTAG"],
     ),
